@@ -7,6 +7,12 @@ Correspondence (model `Defs` vs the real code, same generated inputs):
       object: after every step `str(obj)` (or the exception class), the def-validator kinds for validate and the
       sorted printout for sorted, against `Defs.runG` / `validateDefs` / `sortG`;
   (c) the column-wise `df_util.expand_defs/shrink_defs` on Series and DataFrames against the string functions.
+  (d) parent pointers: the model's `copyTag=false` variant against the real objects in a scratch copy of the
+      package where `validate` hands the live tag to `get_definition` (all short histories over expand / shrink /
+      validate / copy) — this is what ties the `Att` field of the model to `_parent` of real tags;
+  (e) `process_def_expands` on cells with value-free Def-expand groups (known, unknown, conflicting, permuted,
+      nested) against `Defs.gatherAll`, plus its own string-level reference (first content defines, a different
+      one is reported and not merged).
 Direct oracle (the property statement computed independently on strings with the harness's own parser):
   expected expansion by substitution from the definition text; expand twice = once; shrink after expand = original;
   every history equals the composition of the two string rewrites and never raises; copies are independent;
@@ -34,6 +40,14 @@ THEOREMS = [
     "HedVerif.C09.expand_twice_counterexample",
     "HedVerif.C09.defexpand_accept_iff",
     "HedVerif.C09.defexpand_order_counterexample",
+    "HedVerif.C09.validate_identity",
+    "HedVerif.C09.validate_preserves_expand_shrink",
+    "HedVerif.C09.validate_detach_counterexample",
+    "HedVerif.C09.gather_match_silent",
+    "HedVerif.C09.gather_conflict_reported",
+    "HedVerif.C09.gather_new_valuefree",
+    "HedVerif.C09.gather_mismatch_reported",
+    "HedVerif.C09.gather_overwrite_counterexample",
     "HedVerif.C09.sort_perm",
     "HedVerif.C09.sortG_perm_partial",
     "HedVerif.C09.sortG_perm_needs_hypothesis",
@@ -691,6 +705,105 @@ def check_gather(ctx, env, def_strings, cells):
         ctx.violation("gather-raised", case, f"{type(e).__name__}: {e}")
 
 
+# ---- gathering (value-free definitions): DefExpandGatherer against `Defs.gatherAll`, and its own reference
+
+GATHER_KNOWN = ["(Definition/A, (Red, Blue))", "(Definition/B, (Green))",
+                "(Definition/Nest, (Item, (Red, (Blue, Green)), (Circle)))", "(Definition/E)"]
+GATHER_CONTENTS = [["Red", "Blue"], ["Blue", "Red"], ["Green"], ["Item", ["Red", ["Blue", "Green"]], ["Circle"]],
+                   ["Square"], ["Square", ["Circle", "Label/x1"]], [["Circle", "Label/x1"], "Square"], ["red", "BLUE"]]
+
+
+def gen_gather_cells(rng):
+    cells = []
+    for _ in range(rng.randint(1, 5)):
+        parts = []
+        for _ in range(rng.randint(1, 3)):
+            name = rng.choice(["A", "a", "B", "Nest", "N1", "N2", "n1", "N3"]) if rng.random() < 0.97 else "E"
+            body = [f"Def-expand/{name}"]
+            r = rng.random()
+            if r < 0.98:
+                body.append(list(rng.choice(GATHER_CONTENTS)))
+            if r < 0.1:
+                body.append("Item")
+            if rng.random() < 0.5:
+                body = shuffle(rng, body)
+            parts.append(body if rng.random() < 0.75 else ["Green", body])
+            if rng.random() < 0.3:
+                parts.append(rng.choice(PLAIN))
+        cells.append(render(parts, rng))
+    return cells
+
+
+def fold_canon(tree):
+    return tuple(sorted((("t", t.casefold()) if isinstance(t, str) else ("g", fold_canon(t))) for t in tree))
+
+
+def ref_gather(known, cells):
+    """value-free gathering on strings: first content seen defines a name, a different one is an error"""
+    defs = {k: v[2] for k, v in known.items()}
+    errors = {}
+
+    def pairs(node):
+        for t in node:
+            if not isinstance(t, str):
+                for x in t:
+                    if isinstance(x, str) and split_def(x, "def-expand"):
+                        yield x, t
+        for t in node:
+            if not isinstance(t, str):
+                yield from pairs(t)
+    for c in cells:
+        for x, grp in pairs(parse(c)):
+            key = split_def(x, "def-expand")[0].casefold()
+            subs = [k for k in grp if not isinstance(k, str)]
+            if key in defs:
+                exp = [x] + ([defs[key]] if defs[key] else [])
+                if fold_canon(grp) != fold_canon(exp):
+                    if not subs:
+                        return None
+                    errors[key] = errors.get(key, 0) + 1
+            else:
+                if not subs:
+                    return None
+                defs[key] = subs[0] if subs[0] else None
+    return defs, errors
+
+
+def check_gather_model(ctx, env, known, cells, model):
+    from hed import HedString
+    from hed.models import df_util
+    case = {"gather_model": known, "cells": cells}
+    try:
+        dd, amb, errs = df_util.process_def_expands(list(cells), env.schema, known_defs=list(known))
+        impl = {"defs": [[k, e.name, bool(e.takes_value),
+                          None if e.contents is None or str(e.contents) == "()" else str(e.contents)]
+                         for k, e in dd.defs.items()],
+                "errors": [[k, [str(g) for g in v]] for k, v in errs.items()], "ambiguous": len(amb)}
+    except Exception as e:    # noqa
+        impl = {"err": type(e).__name__}
+    ctx.case(("gm", tuple(known), tuple(cells)), nontrivial=len(cells) >= 2)
+    ctx.count("gather-model" + ("-raised-" + impl["err"] if "err" in impl else ""))
+    if "err" not in impl:
+        ctx.count("gather-model-errors-reported", sum(len(v) for _, v in impl["errors"]))
+        ctx.count("gather-model-definitions-added", max(0, len(impl["defs"]) - len(known)))
+    if model != impl:
+        ctx.disagree("Defs.gatherAll = process_def_expands (value-free definitions)", case, model, impl)
+    refk, _ = ref_accept(known, env.takes_value_tag, env.bad_prop_tag)
+    ref = ref_gather(refk, cells)
+    if ref is not None and "err" not in impl:
+        rdefs, rerrs = ref
+        got_errs = {k: len(v) for k, v in impl["errors"]}
+        if sorted(rdefs) != sorted(d[0] for d in impl["defs"]) or rerrs != got_errs:
+            ctx.violation("gathering-reports-conflicts-and-keeps-first-definition", case,
+                          {"expected_names": sorted(rdefs), "expected_errors": rerrs, "got": impl})
+        else:
+            for k, name, takes, content in impl["defs"]:
+                want = None if not rdefs[k] else fold_canon([rdefs[k]])
+                have = None if content is None else fold_canon(parse(content))
+                if want != have or takes:
+                    ctx.violation("gathered-definition-differs-from-first-expansion", case, {"name": k, "got": content})
+
+
 # --------------------------------------------------------------------------------------------------- driver
 
 BASE_OBJECTS = [
@@ -769,6 +882,72 @@ def placeholder_order_work(env, cap):
     return work
 
 
+# ---- parent pointers: the model's `copyTag = false` variant against the real objects when `validate` hands the
+# live tag to get_definition (a scratch copy of the package with `return_copy_of_tag=True` switched off)
+VARIANT_HEDS = ["Def/Spd/3", "(Def-expand/Spd/3, (Speed/3 mph)), Red", "(Def/Spd/3, Blue), Def/A",
+                "(Item, (Def/Nest, (Def/Lab/x7, Def/E))), Def/Em", "(Def-expand/A, (Red, Blue)), Def/B, (Def/Zed, Def/A/3)"]
+
+
+def variant_work(maxlen):
+    return [(GOOD_DEFS, hed, list(ops)) for hed in VARIANT_HEDS for n in range(1, maxlen + 1)
+            for ops in itertools.product(["expand", "shrink", "validate", "copy"], repeat=n)]
+
+
+def variant_child():
+    """runs in a subprocess whose VERIF_REPO is the scratch copy: observed steps for the variant work list"""
+    import sys
+    from harness import common
+    common.use_repo()
+    env = Env()
+    out = []
+    for defs, hed, ops in variant_work(int(sys.argv[1])):
+        dd, _, _ = env.build_dict(defs)
+        start, tree, steps, _ = impl_history(env, dd, hed, ops)
+        out.append({"tree": tree, "steps": [st.get("s", st.get("err")) for st in steps]})
+    json.dump(out, open(sys.argv[2], "w"))
+
+
+def check_variant(ctx, env, maxlen):
+    import os
+    import shutil
+    import subprocess
+    import sys
+    import tempfile
+    from harness import common
+    d = tempfile.mkdtemp(prefix="hedverif_c09_")
+    try:
+        shutil.copytree(common.REPO / "hed", os.path.join(d, "hed"), ignore=shutil.ignore_patterns("__pycache__"))
+        f = os.path.join(d, "hed", "validator", "def_validator.py")
+        src = open(f, newline="").read()
+        if src.count("return_copy_of_tag=True") != 2:
+            ctx.obligation("variant:def_validator passes a copy of the tag twice", False, "source changed")
+            return
+        open(f, "w", newline="").write(src.replace("return_copy_of_tag=True", "return_copy_of_tag=False"))
+        outp = os.path.join(d, "out.json")
+        p = subprocess.run([sys.executable, "-c", "from harness.props import c09; c09.variant_child()", str(maxlen), outp],
+                           cwd=str(common.ROOT), env=dict(os.environ, VERIF_REPO=d, PYTHONWARNINGS="ignore"),
+                           capture_output=True, text=True, timeout=600)
+        if p.returncode != 0:
+            ctx.obligation("variant:child run", False, p.stderr[-800:])
+            return
+        got = json.load(open(outp))
+    finally:
+        shutil.rmtree(d, ignore_errors=True)
+    work = variant_work(maxlen)
+    defs_json = [env.def_tree(s) for s in GOOD_DEFS]
+    ans = ctx.model.batch([{"op": "c09.run", "defs": defs_json, "kids": g["tree"], "ops": ops, "copytag": False}
+                           for (_, _, ops), g in zip(work, got)])
+    changed = 0
+    for (defs, hed, ops), g, a in zip(work, got, ans):
+        m = [st.get("s", st.get("err")) for st in a["steps"]]
+        ctx.case(("v", hed, tuple(ops)), nontrivial="validate" in ops and len(ops) >= 2)
+        ctx.count("variant-histories")
+        if m != g["steps"]:
+            ctx.disagree("Defs.runG with copyTag=false = real objects when validate does not copy the tag",
+                         {"variant": True, "hed": hed, "ops": ops}, m, g["steps"])
+    ctx.extra["variant_histories"] = len(work)
+
+
 def histories(ctx, env, work):
     """work: list of (def_strings, hed, ops); one model batch per chunk"""
     from hed import HedString
@@ -830,6 +1009,16 @@ def run(ctx):
     ctx.extra["placeholder_order_family"] = {"definitions": len(PLACEHOLDER_ORDER), "histories": len(pow_)}
     work += pow_
     histories(ctx, env, work)
+    check_variant(ctx, env, 3 if quick else 4)
+    ctx.check_time()
+    gwork = [(GATHER_KNOWN if rng.random() < 0.6 else rng.sample(GATHER_KNOWN, 2), gen_gather_cells(rng))
+             for _ in range(250 if quick else 4000)]
+    gwork.append(([], ["(Def-expand/N1, (Red))", "(Def-expand/n1, (Red))", "(Def-expand/N1, (Blue))"]))
+    gans = ctx.model.batch([{"op": "c09.gather", "defs": [env.def_tree(s) for s in k],
+                             "cells": [env.def_tree(c) for c in cells]} for k, cells in gwork])
+    for (k, cells), a in zip(gwork, gans):
+        check_gather_model(ctx, env, k, cells, a)
+    ctx.check_time()
     # (c) frames, (d) gathering
     for _ in range(40 if quick else 400):
         defs = gen_defset(rng) if rng.random() < 0.5 else GOOD_DEFS
@@ -860,6 +1049,10 @@ def replay(ctx, rec):
         check_accept(ctx, env, case["accept"], a)
     elif "hed" in case:
         check_history(ctx, env, case["defs"], case["hed"], case["ops"])
+    elif "gather_model" in case:
+        a = ctx.model.batch([{"op": "c09.gather", "defs": [env.def_tree(s) for s in case["gather_model"]],
+                              "cells": [env.def_tree(c) for c in case["cells"]]}])[0]
+        check_gather_model(ctx, env, case["gather_model"], case["cells"], a)
     elif "gather" in case:
         check_gather(ctx, env, case["gather"], case["cells"])
     else:
